@@ -104,6 +104,8 @@ def static_file(filename, root, mimetype='auto', download=False, charset='UTF-8'
     ims = env_get('HTTP_IF_MODIFIED_SINCE')
     if ims:
         ims = parse_date(ims.split(";")[0].strip())
+    else:
+        ims = None
     if ims is not None and ims >= int(stats.st_mtime):
         headers['Date'] = email.utils.formatdate(time.time(), usegmt=True)
         return HTTPResponse(status=304, **headers)
